@@ -287,6 +287,21 @@ func (s *Sess) exec(in ssa.Instruction, st *State) {
 			}
 			v := s.setVal(x, s.load(st, a, T), st)
 			s.assumeAt(st, s.wf(v.t, T, st.top))
+			// protobuf-go validity: a repeated message field of a generated message has no nil
+			// elements (Marshal and reflection reject them); modelling assumption, listed
+			if fa, ok := x.X.(*ssa.FieldAddr); ok && s.nilcheck && isGeneratedMsgPtr(T) && isOneofWrapperPtr(fa.X.Type()) {
+				// a set oneof arm of a parsed message holds a message (protodesc and Unmarshal never
+				// leave a wrapper with a nil message); modelling assumption, listed
+				s.trustedUsed["set oneof arms of generated protobuf messages hold non-nil messages (descriptor options are normalised by protodesc)"] = true
+				s.assumeAt(st, fmt.Sprintf("(distinct %s 0)", v.t))
+			}
+			if fa, ok := x.X.(*ssa.FieldAddr); ok && s.nilcheck {
+				if sl, ok := T.Underlying().(*types.Slice); ok && isGeneratedMsgPtr(sl.Elem()) && isGeneratedMsgPtr(fa.X.Type()) {
+					s.trustedUsed["repeated message fields of generated protobuf messages have no nil elements (protobuf-go validity)"] = true
+					H := s.region(st, elemRegion(sl.Elem()), s.elemSort(sl.Elem()))
+					s.assumeAt(st, fmt.Sprintf("(forall ((i Int)) (! (=> (and (<= 0 i) (< i (s.len %s))) (distinct (select (select %s (s.base %s)) (go.ix (s.off %s) i)) 0)) :pattern ((select (select %s (s.base %s)) (go.ix (s.off %s) i)))))", v.t, H, v.t, v.t, H, v.t, v.t))
+				}
+			}
 		case token.NOT:
 			s.setVal(x, not(a.t), st)
 		case token.SUB:
@@ -754,6 +769,19 @@ func (s *Sess) execTypeAssert(x *ssa.TypeAssert, st *State) {
 		s.env[x] = Val{parts: []Val{{t: vv, typ: T}, {t: okc, typ: types.Typ[types.Bool]}}, typ: x.Type()}
 		return
 	}
+	// a documented panic condition (`panics when`) that can be evaluated here excuses the assertion
+	if s.ct != nil && s.inlineDepth == 0 {
+		for _, c := range s.ct.PanicsWhen {
+			if c.E == nil {
+				continue
+			}
+			ce := s.funcEnv(st, s.entry, nil)
+			ce.lookup = func(n string) (Val, bool) { return s.resolveLocalAt(x, n, st) }
+			if f, err := ce.evalBool(c.E); err == nil {
+				ok = fmt.Sprintf("(or %s %s)", ok, f)
+			}
+		}
+	}
 	s.oblige(st, "assert", fmt.Sprintf("assert@%d", s.ord[x]), ok, x.Pos(), "type assertion cannot fail: "+x.String())
 	nv := s.setVal(x, val, st)
 	s.assumeAt(st, s.wf(nv.t, T, st.top))
@@ -1012,6 +1040,52 @@ func blockReaches(from, to *ssa.BasicBlock) bool {
 		}
 		seen[b] = true
 		stack = append(stack, b.Succs...)
+	}
+	return false
+}
+
+// isGeneratedMsgPtr: pointer to a protoc-gen-go message struct (it has the ProtoReflect method and the
+// generated 'state' field).
+func isGeneratedMsgPtr(T types.Type) bool {
+	p, ok := T.Underlying().(*types.Pointer)
+	if !ok {
+		return false
+	}
+	n, ok := types.Unalias(p.Elem()).(*types.Named)
+	if !ok {
+		return false
+	}
+	st, ok := n.Underlying().(*types.Struct)
+	if !ok || st.NumFields() == 0 || st.Field(0).Name() != "state" {
+		return false
+	}
+	for i := 0; i < n.NumMethods(); i++ {
+		if n.Method(i).Name() == "ProtoReflect" {
+			return true
+		}
+	}
+	return false
+}
+
+// isOneofWrapperPtr: pointer to a protoc-gen-go oneof wrapper struct (one field, marker method isX_Y).
+func isOneofWrapperPtr(T types.Type) bool {
+	p, ok := T.Underlying().(*types.Pointer)
+	if !ok {
+		return false
+	}
+	n, ok := types.Unalias(p.Elem()).(*types.Named)
+	if !ok {
+		return false
+	}
+	st, ok := n.Underlying().(*types.Struct)
+	if !ok || st.NumFields() != 1 {
+		return false
+	}
+	ms := types.NewMethodSet(p)
+	for i := 0; i < ms.Len(); i++ {
+		if strings.HasPrefix(ms.At(i).Obj().Name(), "is") && !ms.At(i).Obj().Exported() {
+			return true
+		}
 	}
 	return false
 }
